@@ -651,6 +651,7 @@ def absR : RVal → SVal
   | .raw (.cmeth t) => .descr (.cmeth t)
   | .raw (.smeth t) => .descr (.smeth t)
   | .bound self fn => .call fn (some self)
+  | .hooked fn self key => .hookResult fn self key
 
 /-- the Python-level state a model state stands for -/
 structure Rel (s : State) (S : SState) : Prop where
@@ -706,6 +707,12 @@ theorem getAttrOrNil_hook {s : State} (hn : NoHooks s) (r : Ref) {h : String} (h
   unfold getAttrOrNil
   rw [hn r h hh, hc, lookup_none_of_dicts s _ h hc]
 
+theorem hookOf_none {s : State} (hn : NoHooks s) (r : Ref) {h : String} (hh : h ∈ hookNames) :
+    hookOf s r h = none := by
+  have hc : ∀ c, (s.cdict c).get h = none := fun c => hn (.cls c) h hh
+  unfold hookOf nativeGetAttrOrNil
+  rw [hc, lookup_none_of_dicts s _ h hc]
+
 /-- result of the model's read against the result the specification defines -/
 def Agrees (m : Res RVal) (sp : SRes SVal) : Prop :=
   match m with
@@ -719,8 +726,8 @@ theorem getAttr_inst {s : State} {S : SState} (h : Rel s S) (hn : NoHooks s) (i 
     Agrees (getAttrString s (.inst i) key) (specRead S (.inst i) key) := by
   have hk : goSpecial.contains key = false := by simpa using hkey
   unfold getAttrString specRead
-  simp only [getAttrOrNil_hook hn _ (by decide : "__getattribute__" ∈ hookNames),
-    getAttrOrNil_hook hn _ (by decide : "__getattr__" ∈ hookNames), Option.isSome_none, Bool.false_eq_true, if_false, hk]
+  simp only [hookOf_none hn _ (by decide : "__getattribute__" ∈ hookNames),
+    hookOf_none hn _ (by decide : "__getattr__" ∈ hookNames), Option.isSome_none, Bool.false_eq_true, if_false, hk]
   rw [h.ns (.inst i) key, h.cls i, h.mro, ← lookup_eq_firstDef h, native_eq_lookup s _ key hhead]
   cases (s.dictOf (.inst i)).get key with
   | some v => simp [Agrees, absR_raw]
@@ -739,8 +746,8 @@ theorem getAttr_cls {s : State} {S : SState} (h : Rel s S) (hn : NoHooks s) (c :
     | nil => rw [hm] at hhead; cases hhead
     | cons => rfl
   unfold getAttrString specRead
-  simp only [getAttrOrNil_hook hn _ (by decide : "__getattribute__" ∈ hookNames),
-    getAttrOrNil_hook hn _ (by decide : "__getattr__" ∈ hookNames), Option.isSome_none, Bool.false_eq_true, if_false, hk, hne, if_true]
+  simp only [hookOf_none hn _ (by decide : "__getattribute__" ∈ hookNames),
+    hookOf_none hn _ (by decide : "__getattr__" ∈ hookNames), Option.isSome_none, Bool.false_eq_true, if_false, hk, hne, if_true]
   rw [h.mro, ← lookup_eq_firstDef h]
   cases hl : lookup s (s.cmro c) key with
   | some v => simp [Agrees, absR_descrGet]
@@ -1016,7 +1023,7 @@ theorem runModel_eq_runSpec : ∀ (ops : List AOp) (s : State) (S : SState), Rel
     | set r k v =>
       have hset : setAttrString s r k v = .ok (setDict s r (fun d => d.set k v)) := by
         unfold setAttrString
-        simp [getAttrOrNil_hook hn r (by decide : "__setattr__" ∈ hookNames)]
+        simp [hookOf_none hn r (by decide : "__setattr__" ∈ hookNames)]
       have hrest' : ∀ op' ∈ rest, OpOK (setDict s r (fun d => d.set k v)) op' := by
         intro op' ho
         obtain ⟨a, b⟩ := hrest op' ho
@@ -1030,7 +1037,7 @@ theorem runModel_eq_runSpec : ∀ (ops : List AOp) (s : State) (S : SState), Rel
       | some v =>
         have hdel : deleteAttrString s r k = .ok (setDict s r (fun d => d.del k)) := by
           unfold deleteAttrString
-          simp [getAttrOrNil_hook hn r (by decide : "__delattr__" ∈ hookNames), hg]
+          simp [hookOf_none hn r (by decide : "__delattr__" ∈ hookNames), hg]
         have hrest' : ∀ op' ∈ rest, OpOK (setDict s r (fun d => d.del k)) op' := by
           intro op' ho
           obtain ⟨a, b⟩ := hrest op' ho
@@ -1041,7 +1048,7 @@ theorem runModel_eq_runSpec : ∀ (ops : List AOp) (s : State) (S : SState), Rel
       | none =>
         have hdel : deleteAttrString s r k = .error .attr := by
           unfold deleteAttrString
-          simp [getAttrOrNil_hook hn r (by decide : "__delattr__" ∈ hookNames), hg]
+          simp [hookOf_none hn r (by decide : "__delattr__" ∈ hookNames), hg]
         simp only [runModel, runSpec, hdel, specDelete, hns, hg]
         rw [ih s S h hn hs hrest]
         rfl
